@@ -136,6 +136,40 @@ func c13(p *Prog, r *Report) {
 			items := p.ReadSequence(s, rp)
 			var got []string
 			var probs []string
+			// the parse moved into a helper (r, s, ok) := parse(sig): analyse the
+			// helper's accepting return, require its verdict to dominate, and r, s
+			// to be its first two results in order
+			rs, hrp := s, rp
+			rVal, sVal := vcall.Call.Args[2], vcall.Call.Args[3]
+			if len(items) == 0 {
+				if e0, ok := rVal.(*ssa.Extract); ok {
+					if e1, ok := sVal.(*ssa.Extract); ok && e0.Tuple == e1.Tuple && e0.Index == 0 && e1.Index == 1 {
+						if hc, ok := e0.Tuple.(*ssa.Call); ok {
+							if h := hc.Call.StaticCallee(); h != nil && InModule(h) && h.Blocks != nil {
+								okDom := false
+								for _, a := range rp.Facts {
+									if c, isCall, succ := callOfAtom(a); isCall && succ && c == hc {
+										okDom = true
+									}
+								}
+								hs := s.child(h)
+								s.bindArgs(hs, h, hc.Call.Args, hc)
+								var hrps []RetPoint
+								for _, x := range hs.ff.RetPoints(verdictIndex(h)) {
+									if x.Outcome != Fails {
+										hrps = append(hrps, x)
+									}
+								}
+								if okDom && len(hrps) == 1 && len(hrps[0].Vals) >= 2 && len(hc.Call.Args) == 1 && s.Of(hc.Call.Args[0]).String() == "param:2" {
+									rs, hrp = hs, &hrps[0]
+									items = p.ReadSequence(rs, hrp)
+									rVal, sVal = hrp.Vals[0], hrp.Vals[1]
+								}
+							}
+						}
+					}
+				}
+			}
 			for _, it := range items {
 				if !it.Checked {
 					probs = append(probs, "unchecked "+it.String())
@@ -163,7 +197,7 @@ func c13(p *Prog, r *Report) {
 					probs = append(probs, "integers are not read from the SEQUENCE's content: outer read stores into "+items[0].Dst+", integers read from "+inner)
 				}
 				// the integers read are the r and s passed to Verify
-				rArg, sArg := rootOfIface(vcall.Call.Args[2]), rootOfIface(vcall.Call.Args[3])
+				rArg, sArg := rootOfIface(rVal), rootOfIface(sVal)
 				r0, s0 := rootOfIface(items[2].Call.Common().Args[1]), rootOfIface(items[3].Call.Common().Args[1])
 				if rArg == nil || rArg != r0 || sArg == nil || sArg != s0 || r0 == s0 {
 					probs = append(probs, "the integers parsed are not (in order) the r and s handed to Verify")
@@ -237,11 +271,11 @@ func c13(p *Prog, r *Report) {
 	}
 	if fn := anchor(p, r, R4, "~/ecdsa.signGeneric"); fn != nil {
 		s := p.NewSym(fn)
-		sites := sitesIn(fn, func(n string) bool { return n == "ecdsa.randFieldElement" })
+		sites := p.deepSites(s, func(n string) bool { return n == "ecdsa.randFieldElement" })
 		ok := len(sites) == 1
 		why := fmt.Sprintf("%d calls to randFieldElement", len(sites))
 		if ok {
-			ct := s.callTerm(sites[0])
+			ct := sites[0].S.callTerm(sites[0].Site)
 			if a := arg(ct, 1).String(); a != "load(param:1)" && a != "param:1" && !strings.HasPrefix(a, "load(param:1") {
 				ok = false
 				why = "k is drawn from " + clip(a, 200) + ", required the csprng parameter"
